@@ -208,6 +208,22 @@ CHECKS = {
     note="Exact lattice data only (rounding on general reals is the BLAS library's, outside the repository). Calls that address nothing but carry another "
          "invalid argument are 'either' (only 'unchanged' is required). Values near 2^31 belong to C19.",
     technique="TLA+ reference semantics and accept/reject tables evaluated by TLC on generated calls; differential replay into cvxopt.blas"),
+ "C18": dict(
+    category="model_checking",
+    text="Lapack.tla: planted instances whose truth is DECIDED by TLC in exact Gaussian-integer arithmetic from a certificate (nonsingular: A = LU / LDL^T / "
+         "LDL^H; positive definite: A = R^H R; exactly singular: zero column with its null vector; not positive definite: witness v with v^H A v < 0; "
+         "triangular; each with its band structure) and the contract of the wrappers per kind of call. For every accepted instance the real wrappers are "
+         "called in crash-isolated children: gesv/getrf/getrs/getri, gbsv/gbtrf/gbtrs, gtsv/gttrf/gttrs, posv/potrf/potrs/potri, pbsv/pbtrf/pbtrs, "
+         "ptsv/pttrf/pttrs, sysv/hesv/sytrf/hetrf/sytrs/hetrs/sytri/hetri, trtrs/trtri/tbtrs (with and without ipiv, every trans/uplo, d and z, orders 0-4, "
+         "0-3 right-hand sides, natural matrices and padded buffers with offsets whose padding cells are canaries), inconsistent-argument variants, and on "
+         "free matrices geqrf/ormqr/unmqr/orgqr/ungqr, gelqf/ormlq/unmlq/orglq/unglq, geqp3, gels (against the exact rational solution), "
+         "syev/heev/syevd/heevd/syevr/heevr/syevx/heevx (ranges A and I), gesvd/gesdd (jobs A, S, N), gees. alpha abstracts each call into the contract's "
+         "booleans (solution = planted X to 1e-9, inputs unchanged, factor-solve = driver, inverse, reconstruction, orthonormality, ordering, outside "
+         "untouched) and TLC judges.",
+    design_ref="DESIGN.md section 4 C18",
+    note="Residual / orthogonality predicates are floating point (alpha); truth and contract are exact. sygv/hegv, gges, select functions of gees, lacpy, larfg, "
+         "larfx and range 'V' are not exercised. A driver with no right-hand side need not notice singularity.",
+    technique="TLA+ truth of planted instances and wrapper contract evaluated by TLC; differential replay into cvxopt.lapack with an abstraction function"),
  "C20": dict(
     category="model_checking",
     text="BufferProtocol.tla: names bound to matrix objects, objects owning storage, views (exported buffers) that keep their source alive; actions New / "
